@@ -3,13 +3,15 @@ import ipamcheck, plugincheck, plugingen
 
 THEOREMS = ["alloc_ranges_ok", "alloc_ranges_atomic", "rollback_restores"]
 REFUTED = []
+# the same property at the level of the scheduler plugin's Bind (Props/C08p.v, proofs in Proofs/PluginAnswerP.v)
+PLUGIN_THEOREMS = ["bind_ranges_in_order", "bind_all_or_nothing", "bind_ranges_in_order_nonvacuous", "bind_store_fault_keeps_nothing"]
 
 MANIFEST = {
     "text": "Coq theorems about the model of AllocateInSubnetsAndIPRange with the rollback loop modelled explicitly: alloc_ranges_ok "
             "(k distinct IPs, i-th in the i-th range list, each free and routable before, owned by the key in memory and store "
             "afterwards, nothing else changed), alloc_ranges_atomic (ANY non-success - not enough IPs or the j-th Create failing for "
             "any j - leaves a state IDENTICAL to the one before), rollback_restores. Tied to the code by histories with a creation "
-            "fault at every index on the real crdIpam vs the model, and by the monitor mon_ranges on the implementation's dumps.",
+            "fault at every index on the real crdIpam vs the model, and by the monitor mon_ranges on the implementation's dumps. At the level of the scheduler plugin's Bind (Props/C08p.v, Proofs/PluginAnswerP.v): bind_ranges_in_order - k requested range lists give k IPs, the i-th inside the i-th list, pairwise different for disjoint lists; bind_all_or_nothing - whatever fails (the j-th object creation for any j, a provider call, pods/binding), the key's IPs are what they were or every range list has one.",
     "note": "trusted: Coq kernel (no axioms); fake API server; requested ranges pairwise disjoint (the property's quantifier); a "
             "failure of a rollback delete is a second fault and outside the quantifier. Plugin level: the IPs Bind reports (and "
             "writes into the pod's annotation) are one per requested range list IN REQUEST ORDER also when some lists are already "
@@ -27,7 +29,7 @@ def run(ctx):
                                                                                  "release_ips", "by_key_ranges"]
     ipamcheck.run(ctx, "C08", "C08", THEOREMS, REFUTED, kinds=kinds)
     # plugin level: what Bind reports for a multi-range request
-    plugincheck.run(ctx, "C08", [], [], mon_c08, nrandom=(40, 400), per_config=(1, 2), fixed=False)
+    plugincheck.run(ctx, "C08", PLUGIN_THEOREMS, [], mon_c08, module="C08p", nrandom=(40, 400), per_config=(1, 2), fixed=False)
 
 
 def mon_c08(h, o, nwf, keys):
